@@ -11,6 +11,7 @@ import (
 
 	proxyv1alpha1 "github.com/kubewharf/kubegateway/pkg/apis/proxy/v1alpha1"
 	"github.com/kubewharf/kubegateway/pkg/ratelimiter/clientsets"
+	"github.com/kubewharf/kubegateway/pkg/ratelimiter/limiter/elector"
 	limitutil "github.com/kubewharf/kubegateway/pkg/ratelimiter/util"
 )
 
@@ -30,6 +31,22 @@ type c13Case struct {
 	Ops  []c13Op `json:"ops"`
 	// Store: "" or "local" = in-memory store; "k8s" = API-backed store in periodic mode over the fake clientset
 	Store string `json:"store"`
+}
+
+// racingElector delegates to the real elector; a one-shot hook runs right after GetLeaders()
+// has taken its snapshot (the place where a lease loss races with rateLimiter.leaderCheck).
+type racingElector struct {
+	elector.LeaderElector
+	afterSnapshot func()
+}
+
+func (e *racingElector) GetLeaders() map[int]proxyv1alpha1.EndpointInfo {
+	m := e.LeaderElector.GetLeaders()
+	if h := e.afterSnapshot; h != nil {
+		e.afterSnapshot = nil
+		h()
+	}
+	return m
 }
 
 type c13Step struct {
@@ -99,6 +116,14 @@ func runC13(raw json.RawMessage) interface{} {
 			rig.stopLeading(op.Shard)
 		case "check":
 			rig.v.LeaderCheck()
+		case "checkrace":
+			// leaderCheck takes its snapshot of the leader records, then the lease of op.Shard is
+			// lost (record deleted, OnStoppedLeading discards the store), then leaderCheck goes on
+			real := rig.v.Elector()
+			sh := op.Shard
+			rig.v.SetElector(&racingElector{LeaderElector: real, afterSnapshot: func() { elector.VerifStopLeading(real, sh) }})
+			rig.v.LeaderCheck()
+			rig.v.SetElector(real)
 		case "set":
 			cl := globalMaxInflightCluster(u, "s", 100)
 			rig.setCluster(cl)
